@@ -258,6 +258,8 @@ pub fn exec(ctx: &mut Ctx, op: &str, p: &mut Toks) -> String {
                 let fa = flat_any(&a);
                 let fo: Vec<Vec<f32>> = os.iter().map(flat_any).collect();
                 let n = (k + 1) as f32;
+                // k = 1: one addition and one division, the IEEE result is unique -> bit-exact.
+                // k >= 2: the sum of k+1 terms may be associated in any order -> exact value within (k+2)·u·Σ|terms|/(k+1)
                 let expect: Vec<f32> = (0..fa.len())
                     .map(|i| {
                         let s: f32 = fo.iter().map(|o| o[i]).sum();
@@ -265,7 +267,20 @@ pub fn exec(ctx: &mut Ctx, op: &str, p: &mut Toks) -> String {
                     })
                     .collect();
                 let ok = match &res {
-                    Some(r) => r.shape == a.shape && same_bits(&flat_any(r), &expect),
+                    Some(r) => {
+                        let got = flat_any(r);
+                        r.shape == a.shape && got.len() == expect.len() && if k == 1 {
+                            same_bits(&got, &expect)
+                        } else {
+                            (0..fa.len()).all(|i| {
+                                let sum: f64 = fa[i] as f64 + fo.iter().map(|o| o[i] as f64).sum::<f64>();
+                                let mag: f64 = (fa[i] as f64).abs() + fo.iter().map(|o| (o[i] as f64).abs()).sum::<f64>();
+                                let e = sum / n as f64;
+                                if !got[i].is_finite() || !(e as f32).is_finite() { return got[i].to_bits() == expect[i].to_bits() || (got[i].is_nan() && expect[i].is_nan()); }
+                                ((got[i] as f64) - e).abs() <= (k as f64 + 3.0) * 5.97e-8 * mag / n as f64 + 1e-44
+                            })
+                        }
+                    }
                     None => false,
                 };
                 ctx.oracle(ok, "mean-elementwise", "mean over k+1 tensors must be (self + Σ others)/(k+1) element-wise",
@@ -302,19 +317,25 @@ pub fn exec(ctx: &mut Ctx, op: &str, p: &mut Toks) -> String {
             let res = try_run(|| a.dot(&b));
             if let (Data::Double(m), Data::Single(x)) = (&a.data, &b.data) {
                 if m.iter().all(|r| r.len() == x.len()) {
-                    // definition, summed in index order
-                    let expect: Vec<f32> = m
-                        .iter()
-                        .map(|r| {
-                            let mut s = -0.0f32;
-                            for j in 0..x.len() {
-                                s += r[j] * x[j];
-                            }
-                            s
-                        })
-                        .collect();
+                    // the definition in exact arithmetic (f64) with the bound every summation order of an f32
+                    // dot product satisfies: |fl(Σ) - Σ| <= n·u·Σ|a·x| (u = 2^-24); the property fixes no order
+                    let n = x.len() as f64;
+                    let exact: Vec<(f64, f64)> = m.iter().map(|r| {
+                        let mut sum = 0.0f64;
+                        let mut mag = 0.0f64;
+                        for j in 0..x.len() { let t = r[j] as f64 * x[j] as f64; sum += t; mag += t.abs(); }
+                        (sum, mag)
+                    }).collect();
+                    let expect: Vec<f32> = exact.iter().map(|(s, _)| *s as f32).collect();
                     let ok = match &res {
-                        Some(r) => r.shape == Shape::Single(m.len()) && same_bits(&flat_any(r), &expect),
+                        Some(r) => {
+                            let got = flat_any(r);
+                            r.shape == Shape::Single(m.len()) && got.len() == exact.len()
+                                && got.iter().zip(exact.iter()).all(|(g, (s, mag))| {
+                                    if !g.is_finite() || !s.is_finite() { return (*s as f32).to_bits() == g.to_bits() || (!g.is_finite() && !(*s as f32).is_finite()); }
+                                    ((*g as f64) - s).abs() <= 2.0 * (n + 1.0) * 5.97e-8 * mag + 1e-44
+                                })
+                        }
                         None => false,
                     };
                     ctx.oracle(ok, "matrix-vector", "dot must be the matrix-vector product Σ_j A[i][j] x[j]",
